@@ -6,11 +6,11 @@ Line-protocol driver for the policy / mutual-close model (properties C05 and C07
 
 All tokens are decimal integers.
   policy  <onchain> <minDelay> <maxDelay> <maxChan> <eps> <maxHtlcs> <maxHtlcValue> <useChain> <minFee> <maxFee> <maxRoutingFee> <warnmask> [<k> (<idx> <kind> <action>)*k]
-  setup   <outbound> <value> <pushMsat> <holderDelay> <cpDelay> <ctype 0..3> <upfrontSid (0=none)> <upfrontSpendable> <upfrontAllowlisted>
+  setup   <outbound> <value> <pushMsat> <holderDelay> <cpDelay> <ctype 0..3> <upfrontSid (0=none)> <upfrontSpendable> <upfrontAllowlisted> [<permanentId 0|1> [<gapBlocks>]]
   allow <sid>* | allow_add <sid>* | allow_rm <sid>*       (allowlist set / add / remove; model: no-op, the flags on the close ops follow)
   restart                                                 (node restored from the real persister; state digest must be unchanged)
   chain   <height> <fundingDepth> <closingDepth>          (monitor state forced; for u32-edge heights)
-  blk     <kind 0|1|2> <height> <fundingDepth> <closingDepth>   (a real block through the tracker: unrelated /
+  blk     <kind 0..7> <height> <fundingDepth> <closingDepth>   (a real block through the tracker: unrelated /
                                                           with the funding tx / with a spend of the funding outpoint)
   unblk   <height> <fundingDepth> <closingDepth>          (the tip block disconnected)
           for blk/unblk the numbers are the chain state the generator's chain simulation expects afterwards;
@@ -167,14 +167,19 @@ def step (st : St) (toks : List String) : St × String :=
       | "allow_rm", _ => (st, "ok")
       -- the node is dropped and restored from its persister: the enforcement state must come back as it was
       | "restart", [] => (st, if st.ready then "ok " ++ digest st.es else "ok")
-      | "setup", [ob, v, push, hd, cd, ct, up, ups, upa] =>
+      -- optional tail `<perm> <gap>`: a permanent channel id is supplied (invisible to the model: one channel);
+      -- `gap` blocks arrive between the creation of the stub and setup_channel: the channel's monitor starts at
+      -- the tracker's height at setup time, 3 seed headers + gap
+      | "setup", ob :: v :: push :: hd :: cd :: ct :: up :: ups :: upa :: extra =>
+        if extra.length > 2 || extra[1]?.getD 0 > 50 then (st, "bad-op") else
         if st.ready then (st, "already") else
         match ctypeOf ct with
         | none => (st, "bad-op")
         | some ct =>
           let s : Setup := ⟨b ob, v, push, hd, cd, ct, if up = 0 then none else some up, b ups, b upa⟩
           match setupChannel st.policy s with
-          | .ok () => ({ st with setup := s, ready := true, es := EState.init, mode := 0 }, "ok")
+          | .ok () => ({ st with setup := s, ready := true, es := EState.init, mode := 0,
+                                 chain := ⟨3 + extra[1]?.getD 0, 0, 0⟩ }, "ok")
           | .error .panic => ({ st with dead := true }, "panic")
           | .error k => (st, "err:" ++ k.name)
       | "chain", [h, fd, cd] =>
